@@ -379,6 +379,13 @@ func exprOf(r *hx.Rng, ctx string, path []string) string {
 		parts = append(parts, recase(r, p))
 	}
 	e := strings.Join(parts, ".")
+	if len(parts) > 1 && r.Chance(1, 4) {
+		// the bracket form of the same reference (the literal keeps the letter case as written)
+		e = parts[0] + "['" + parts[1] + "']"
+		if len(parts) > 2 {
+			e += "." + strings.Join(parts[2:], ".")
+		}
+	}
 	// the reference in other places of an expression: condition of `c && a || b`, under `!`,
 	// argument of a function, operand of a comparison
 	switch r.Intn(8) {
@@ -467,6 +474,24 @@ func (w *gwf) render(r *hx.Rng) (string, []*ref) {
 		}
 		if j.call != "" {
 			o.add("    uses: ./.github/workflows/c_" + j.call + ".yaml")
+			// `with:` values of the call are positions like any other: an input the callee
+			// declares (`i` of c_noout) and one it does not
+			if ji > 0 && r.Chance(2, 3) {
+				o.add("    with:")
+				for k, key := range []string{"i", "zz"} {
+					other := w.jobs[r.Intn(ji)].id
+					if r.Chance(1, 4) {
+						other = "ghost"
+					}
+					rf := &ref{kind: refNeeds, job: ji, path: []string{lower(other), "result"}}
+					if k == 1 && r.Chance(1, 2) {
+						rf = &ref{kind: refMatrix, job: ji, path: []string{"os"}}
+						plant("      ", key, rf, "matrix")
+						continue
+					}
+					plant("      ", key, rf, "needs")
+				}
+			}
 			continue
 		}
 		o.add("    runs-on: ubuntu-latest")
